@@ -3,6 +3,7 @@ package props
 import (
 	"fmt"
 	"go/token"
+	"go/types"
 	"sort"
 	"strings"
 
@@ -225,7 +226,7 @@ func ruleC14Swap(e *Env) {
 // ---- C14.suffix: decision table of the remainder comparison
 
 func ruleSuffix(e *Env, rule string) {
-	cpr := e.Fn(rule, "sem", "comparePreRelease")
+	cpr := scanFunc(e, rule)
 	if cpr == nil {
 		return
 	}
@@ -243,8 +244,8 @@ func ruleSuffix(e *Env, rule string) {
 	site := flow.FnName(suf)
 	keyOf := func(a, b pred.Val) (string, bool) {
 		as, bs := a.String(), b.String()
-		if strings.HasPrefix(as, "(*regexp.Regexp).MatchString(") && bs == "true" {
-			return as, true
+		if (strings.HasPrefix(as, "(*regexp.Regexp).MatchString(") || strings.HasPrefix(as, "(*regexp.Regexp).Match(")) && bs == "true" {
+			return strings.Replace(as, "(*regexp.Regexp).Match(", "(*regexp.Regexp).MatchString(", 1), true // bytes or string: the same automaton
 		}
 		if strings.HasPrefix(as, "len(") && strings.HasPrefix(bs, "len(") {
 			if as > bs {
@@ -277,7 +278,8 @@ func ruleSuffix(e *Env, rule string) {
 		return
 	}
 	lex := func(x, y string) []string {
-		return []string{"-strings.Compare(" + x + "," + y + ")", "strings.Compare(" + y + "," + x + ")"}
+		return []string{"-strings.Compare(" + x + "," + y + ")", "strings.Compare(" + y + "," + x + ")",
+			"-bytes.Compare(" + x + "," + y + ")", "bytes.Compare(" + y + "," + x + ")"}
 	}
 	in := func(s string, set []string) bool {
 		for _, x := range set {
@@ -287,7 +289,12 @@ func ruleSuffix(e *Env, rule string) {
 		}
 		return false
 	}
-	const ts, tl = `strings.TrimLeft(s,"0")`, `strings.TrimLeft(l,"0")`
+	ts, tl := `strings.TrimLeft(s,"0")`, `strings.TrimLeft(l,"0")`
+	if len(suf.Params) == 2 {
+		if _, isSlice := suf.Params[0].Type().Underlying().(*types.Slice); isSlice { // the remainders as byte slices
+			ts, tl = `bytes.TrimLeft(s,"0")`, `bytes.TrimLeft(l,"0")`
+		}
+	}
 	numericByLength := false
 	// the "all-digit" atom is a match against a regexp global: its language must be the digit strings (empty included)
 	digitGlobals := map[string]bool{}
